@@ -146,6 +146,12 @@ impl fmt::Debug for Sym {
     fn fmt(&self, f: &mut fmt::Formatter<'_>) -> fmt::Result {
         match node(self.0) {
             Node::Lit(t) => f.write_str(&t),
+            // like a negative float, a negative exact constant prints with a leading `-` (which the tokenizer reads back
+            // as a unary minus applied to the positive literal; ground arithmetic folds that to the same node)
+            Node::Rat(n, d) if n < 0 && n != i64::MIN => {
+                let pos = Sym::rat(-n, d);
+                write!(f, "-{}{:07}", RESERVED_PREFIX, pos.0)
+            }
             _ => write!(f, "{}{:07}", RESERVED_PREFIX, self.0),
         }
     }
